@@ -246,6 +246,29 @@ def entry04 (e : Rig.C10.Entry) : Entry :=
 /-- C10 tables to the tables of this file -/
 def tables04 (T : Rig.C10.Tables) : Tables := T.map fun ct => (chipZ ct.1, ct.2.map entry04)
 
+/-! ### the composition: vocabulary of `pipeline_delivery` -/
+
+/-- one net as it leaves the router: key and mask, chip of the source, the sink vertices in the
+vocabulary of C03 (chip from the placement, core range from the allocation, or endpoint route),
+and the routing tree -/
+structure PNet where
+  key : W
+  mask : W
+  src : Chip
+  sinks : List Rig.C03.Sink
+  tree : Rig.C03.Tree
+
+/-- what `routing_tree_to_tables` is given for this net (C10 vocabulary) -/
+def PNet.net10 (n : PNet) : Rig.C10.Net := { key := n.key.toNat, mask := n.mask.toNat, tree := toC10 n.tree }
+
+/-- every allocated core of every sink: the expected deliveries -/
+def sinkCores (sinks : List Rig.C03.Sink) : List (Chip × Nat) :=
+  sinks.flatMap fun s => if s.kind = 1 then (List.range (s.b - s.a)).map (fun i => (s.chip, s.a + i)) else []
+
+/-- the link of every sink with a route-endpoint constraint: the expected exits -/
+def sinkExits (sinks : List Rig.C03.Sink) : List (Chip × Nat) :=
+  sinks.filterMap fun s => if s.kind = 2 then some (s.chip, s.a) else none
+
 /-! ### line protocol -/
 open Lean Rig.P
 
